@@ -88,7 +88,7 @@ func cmdRun(args []string) {
 func modelString(v *Violation) string {
 	s := ""
 	for _, nd := range v.Nondets {
-		if nd.Kind == "choice" {
+		if nd.Kind == "choice" || nd.Kind == "variant" {
 			s += fmt.Sprintf("%s=%d ", nd.Name, nd.Val)
 		} else {
 			s += fmt.Sprintf("%s=%#x ", nd.Name, v.Model[nd.Name])
